@@ -1,16 +1,604 @@
-(* lemmas about Model/Report.v (C04) *)
+(* lemmas about Model/Report.v (C04): conversions, headline = min of the per-food sum, link with the LP rows
+   Kcals_Fed_Month / objective / second stage of Model/LP.v, crop split, np.round bounds *)
 From Coq Require Import QArith Qround Lqa Lia List String Bool Arith ZArith.
 From Allfed Require Import Base.StrUtil Gen.UnitTables Model.Units Model.LP Model.Report Proofs.Units.
 Import ListNotations.
 Open Scope Q_scope.
+
+(* ---------- lists ---------- *)
+Lemma nth_map_seq {A} (f : nat -> A) d n s m : (m < n)%nat -> nth m (map f (seq s n)) d = f (s + m)%nat.
+Proof.
+  revert s m; induction n; intros s m H; [lia|].
+  destruct m; cbn; [f_equal; lia|]. rewrite IHn by lia. f_equal; lia.
+Qed.
+
+Lemma nth_repeat0 m k : nth m (repeat 0 k) 0 = 0.
+Proof. revert m; induction k; intros [|m]; cbn; auto. Qed.
+
+Lemma nthq_lscale k l m : nthq (lscale k l) m == k * nthq l m.
+Proof.
+  unfold nthq, lscale. revert m; induction l; intros [|m]; cbn; try ring. apply IHl.
+Qed.
+
+Lemma length_zip f a b : List.length (zip_with f a b) = Nat.min (List.length a) (List.length b).
+Proof. revert b; induction a; intros [|y b]; cbn; auto. Qed.
+
+Lemma nthq_zip f a b m : (m < List.length a)%nat -> (m < List.length b)%nat ->
+  nthq (zip_with f a b) m = f (nthq a m) (nthq b m).
+Proof.
+  unfold nthq. revert b m; induction a; intros [|y b] [|m]; cbn; intros; try lia; auto.
+  apply IHa; lia.
+Qed.
+
+Lemma to_monthly_list_len n v k : varlen v = n -> List.length (to_monthly_list n v k) = n.
+Proof.
+  destruct v; cbn; intros <-; [apply repeat_length|]. now rewrite map_length, seq_length.
+Qed.
+
+Lemma to_monthly_list_nth n v k m : (m < n)%nat -> nthq (to_monthly_list n v k) m == var_at v m * k.
+Proof.
+  intros H. destruct v; cbn; unfold nthq.
+  - rewrite nth_repeat0. ring.
+  - rewrite (nth_map_seq (fun m => nthq vals m * k)) by exact H. reflexivity.
+Qed.
 
 Lemma Qle_bool_false x y : Qle_bool x y = false -> y < x.
 Proof.
   intro H. destruct (Qlt_le_dec y x) as [L|L]; [exact L|].
   apply Qle_bool_iff in L. congruence.
 Qed.
+Lemma Qmin'_le_l x y : Qmin' x y <= x.
+Proof. unfold Qmin'. destruct (Qle_bool x y) eqn:E; [lra|]. apply Qle_bool_false in E. lra. Qed.
+Lemma Qmin'_le_r x y : Qmin' x y <= y.
+Proof. unfold Qmin'. destruct (Qle_bool x y) eqn:E; [now apply Qle_bool_iff|lra]. Qed.
+Lemma Qmin'_cases x y : Qmin' x y = x \/ Qmin' x y = y.
+Proof. unfold Qmin'. destruct (Qle_bool x y); auto. Qed.
 
-(* both branches of to_monthly_list_outdoor_crops_kcals, any produced / eaten / conversion *)
+Lemma fold_min_le l : forall x, fold_left Qmin' l x <= x /\ (forall y, In y l -> fold_left Qmin' l x <= y).
+Proof.
+  induction l; intros x; cbn.
+  - split; [lra|tauto].
+  - destruct (IHl (Qmin' x a)) as [A B]. split.
+    + pose proof (Qmin'_le_l x a). lra.
+    + intros y [<-|Hy]; [pose proof (Qmin'_le_r x a); lra|auto].
+Qed.
+Lemma fold_min_in l : forall x, fold_left Qmin' l x = x \/ In (fold_left Qmin' l x) l.
+Proof.
+  induction l; intros x; cbn; [auto|].
+  destruct (IHl (Qmin' x a)) as [E|E]; [|auto].
+  rewrite E. destruct (Qmin'_cases x a) as [->| ->]; auto.
+Qed.
+
+Lemma lmin_spec l h : lmin l = Some h -> In h l /\ forall y, In y l -> h <= y.
+Proof.
+  destruct l as [|x l]; cbn; [discriminate|]. intros [= <-].
+  destruct (fold_min_le l x) as [A B]. split.
+  - destruct (fold_min_in l x) as [->|E]; auto.
+  - intros y [<-|Hy]; auto.
+Qed.
+
+Lemma lmin_nth l h : lmin l = Some h ->
+  (exists m, (m < List.length l)%nat /\ nthq l m = h) /\ forall m, (m < List.length l)%nat -> h <= nthq l m.
+Proof.
+  intros H. destruct (lmin_spec l h H) as [A B]. split.
+  - destruct (In_nth l h 0 A) as (m & Hm & E). exists m; auto.
+  - intros m Hm. apply B. apply nth_In; exact Hm.
+Qed.
+
+(* ---------- inversion of extract / interpret ---------- *)
+Definition prod_h (x : rep_in) : list Q :=
+  lsub (lsub (r_crops_prod x) (create_food_kcals (r_n x) (r_km x) (v_cr_f x))) (create_food_kcals (r_n x) (r_km x) (v_cr_b x)).
+
+Lemma extract_inv x e : extract x = Ok e ->
+  e_sf e = extract_generic_kcals (r_n x) (r_km x) (v_sf_h x) 1 /\
+  e_sw e = extract_generic_kcals (r_n x) (r_km x) (v_sw_h x) (r_sw_kcals x) /\
+  e_scp e = extract_generic_kcals (r_n x) (r_km x) (v_scp_h x) 1 /\
+  e_cs e = extract_generic_kcals (r_n x) (r_km x) (v_cs_h x) 1 /\
+  e_fish e = lscale (m_bk_bf (r_conv x)) (r_fish x) /\
+  e_gh e = lscale (m_bk_bf (r_conv x)) (r_greenhouse x) /\
+  e_cr e = create_food_kcals (r_n x) (r_km x) (v_cr_h x) /\
+  e_meat e = create_food_kcals (r_n x) (r_km x) (v_meat x) /\
+  e_milk e = map (fun v => v / r_km x) (r_milk x) /\
+  (if is_modelled (v_cr_h x)
+   then (e_imm e, e_ns e) = split_series (r_n x) (map (var_at (v_cr_h x)) (seq 0 (r_n x))) (prod_h x) (1 / r_km x)
+   else e_imm e = repeat 0 (varlen (v_cr_h x)) /\ e_ns e = repeat 0 (varlen (v_cr_h x))).
+Proof.
+  unfold extract. fold (prod_h x).
+  destruct (negb (same_len _ _ && same_len _ _)); [discriminate|].
+  destruct (is_modelled (v_cr_h x)) eqn:M; cbn [negb andb].
+  - destruct (split_series _ _ _ _) as [imm ns] eqn:S.
+    destruct (negb (sources_add_up _ _ _)); [discriminate|].
+    destruct (negb (growing_production_ok _ _ _)); [discriminate|].
+    intros [= <-]; cbn. repeat split; reflexivity.
+  - destruct (Qeq_bool (lsum (prod_h x)) 0); [|discriminate].
+    destruct (negb (sources_add_up _ _ _)); [discriminate|].
+    destruct (negb (growing_production_ok _ _ _)); [discriminate|].
+    intros [= <-]; cbn. repeat split; reflexivity.
+Qed.
+
+Lemma interpret_inv c e i : interpret c e = Ok i ->
+  p_sf i = lscale (m_bf_pct c) (e_sf e) /\ p_cr i = lscale (m_bf_pct c) (e_cr e) /\
+  p_sw i = lscale (m_bf_pct c) (e_sw e) /\ p_cs i = lscale (m_bf_pct c) (e_cs e) /\
+  p_scp i = lscale (m_bf_pct c) (e_scp e) /\ p_gh i = lscale (m_bf_pct c) (e_gh e) /\
+  p_fish i = lscale (m_bf_pct c) (e_fish e) /\ p_meat i = lscale (m_bf_pct c) (e_meat e) /\
+  p_milk i = lscale (m_bf_pct c) (e_milk e) /\ p_imm i = lscale (m_bf_pct c) (e_imm e) /\
+  p_ns i = lscale (m_bf_pct c) (e_ns e) /\
+  p_sum i = sum9 (p_sf i) (p_cr i) (p_sw i) (p_cs i) (p_scp i) (p_gh i) (p_fish i) (p_meat i) (p_milk i) /\
+  lmin (p_sum i) = Some (headline i) /\
+  (same_len (p_sf i) (p_cr i) && same_len (p_sf i) (p_sw i) && same_len (p_sf i) (p_cs i) &&
+   same_len (p_sf i) (p_scp i) && same_len (p_sf i) (p_gh i) && same_len (p_sf i) (p_fish i) &&
+   same_len (p_sf i) (p_meat i) && same_len (p_sf i) (p_milk i) = true) /\
+  q_sf i = lround 3 (p_sf i) /\ q_cr i = lround 3 (p_cr i) /\ q_imm i = lround 1 (p_imm i) /\
+  q_ns i = lround 3 (p_ns i) /\ q_sw i = lround 3 (p_sw i) /\
+  k_fish i = lscale (m_bf_ke c) (e_fish e) /\ k_cs i = lscale (m_bf_ke c) (e_cs e) /\
+  k_scp i = lscale (m_bf_ke c) (e_scp e) /\ k_gh i = lscale (m_bf_ke c) (e_gh e) /\
+  k_sw i = lscale (m_bf_ke c) (e_sw e) /\ k_milk i = lscale (m_bf_ke c) (e_milk e) /\
+  k_meat i = lscale (m_bf_ke c) (e_meat e) /\ k_imm i = lscale (m_bf_ke c) (e_imm e) /\
+  k_ns i = lscale (m_bf_ke c) (e_ns e) /\ k_sf i = lscale (m_bf_ke c) (e_sf e).
+Proof.
+  unfold interpret.
+  destruct (same_len _ _ && same_len _ _ && same_len _ _ && same_len _ _ && same_len _ _ && same_len _ _ && same_len _ _ && same_len _ _) eqn:L;
+    cbn [negb]; [|discriminate].
+  destruct (lmin _) as [h|] eqn:Hm; [|discriminate].
+  destruct (negb (same_len _ _ && same_len _ _)); [discriminate|].
+  destruct (negb _); [discriminate|].
+  intros [= <-]; cbn. repeat split; try reflexivity; assumption.
+Qed.
+
+(* ---------- multipliers ---------- *)
+Open Scope string_scope.
+Lemma m_bk_bf_eq c : m_bk_bf c = conversion_formula 1 (kcal_billion_kcal_to_billion_people c).
+Proof. reflexivity. Qed.
+Lemma m_bf_pct_eq c : m_bf_pct c = conversion_formula (kcal_billion_kcal_to_billion_people c) (kcal_billion_kcal_to_percent_fed c).
+Proof. reflexivity. Qed.
+Lemma m_bf_ke_eq c : m_bf_ke c = conversion_formula (kcal_billion_kcal_to_billion_people c)
+   ((kcal_billion_kcal_to_billion_people c) * (kcal_billion_people_to_kcals_equivalent c)).
+Proof. reflexivity. Qed.
+Close Scope string_scope.
+
+Lemma pct_formula c km r : positive_settings c -> km == kcals_monthly c ->
+  m_bf_pct c * (r / km) == 100 * r / billion_kcals_needed c.
+Proof.
+  intros (A & B & C & D) ->. rewrite m_bf_pct_eq. unfold conversion_formula. unfold_units. field. qnz.
+Qed.
+Lemma ke_formula c km r : positive_settings c -> km == kcals_monthly c ->
+  m_bf_ke c * (r / km) == r * 1000000000 / (30 * population c).
+Proof.
+  intros (A & B & C & D) ->. rewrite m_bf_ke_eq. unfold conversion_formula. unfold_units. field. qnz.
+Qed.
+Lemma bk_bf_formula c : positive_settings c -> m_bk_bf c == 1 / kcals_monthly c.
+Proof.
+  intros (A & B & C & D). rewrite m_bk_bf_eq. unfold conversion_formula. unfold_units. field. qnz.
+Qed.
+Lemma km_pos c : positive_settings c -> 0 < kcals_monthly c.
+Proof. intros (A & B & C & D). unfold_units. lra. Qed.
+Lemma bkn_pos c : positive_settings c -> 0 < billion_kcals_needed c.
+Proof.
+  intros H. pose proof (km_pos c H) as K. destruct H as (A & B & C & D).
+  unfold billion_kcals_needed. apply Qdiv_pos; [apply Qmult_lt_0_compat; assumption|lra].
+Qed.
+Lemma m_bf_pct_pos c : positive_settings c -> 0 < m_bf_pct c.
+Proof.
+  intros H. pose proof (pct_formula c (kcals_monthly c) (kcals_monthly c) H (Qeq_refl _)) as E.
+  destruct H as (A & B & C & D).
+  assert (K : 0 < kcals_monthly c) by (unfold_units; lra).
+  assert (N : 0 < billion_kcals_needed c) by (unfold_units; apply Qdiv_pos; [nra|lra]).
+  assert (E1 : kcals_monthly c / kcals_monthly c == 1) by (field; lra).
+  rewrite E1, Qmult_1_r in E. rewrite E. apply Qdiv_pos; [nra|exact N].
+Qed.
+Lemma m_bf_ke_pos c : positive_settings c -> 0 < m_bf_ke c.
+Proof.
+  intros H. pose proof (ke_formula c (kcals_monthly c) (kcals_monthly c) H (Qeq_refl _)) as E.
+  destruct H as (A & B & C & D).
+  assert (K : 0 < kcals_monthly c) by (unfold_units; lra).
+  assert (E1 : kcals_monthly c / kcals_monthly c == 1) by (field; lra).
+  rewrite E1, Qmult_1_r in E. rewrite E. apply Qdiv_pos; [nra|lra].
+Qed.
+
+Lemma nthq_map_div km l m : ~ km == 0 -> nthq (map (fun v => v / km) l) m == nthq l m / km.
+Proof.
+  intros K. unfold nthq. revert m; induction l; intros [|m]; cbn; try (field; exact K); try reflexivity. apply IHl.
+Qed.
+
+(* one converted series: percent and kcals-equivalent of an optimiser variable list *)
+Lemma pct_of_vars c n km v r m : positive_settings c -> km == kcals_monthly c -> (m < n)%nat ->
+  nthq (lscale (m_bf_pct c) (to_monthly_list n v (r / km))) m == 100 * (r * var_at v m) / billion_kcals_needed c.
+Proof.
+  intros H K Hm. rewrite nthq_lscale, to_monthly_list_nth by exact Hm.
+  transitivity (var_at v m * (m_bf_pct c * (r / km))); [ring|]. rewrite (pct_formula c km r H K).
+  pose proof (bkn_pos c H). field. intro HE; lra.
+Qed.
+Lemma ke_of_vars c n km v r m : positive_settings c -> km == kcals_monthly c -> (m < n)%nat ->
+  nthq (lscale (m_bf_ke c) (to_monthly_list n v (r / km))) m == r * var_at v m * 1000000000 / (30 * population c).
+Proof.
+  intros H K Hm. rewrite nthq_lscale, to_monthly_list_nth by exact Hm.
+  transitivity (var_at v m * (m_bf_ke c * (r / km))); [ring|]. rewrite (ke_formula c km r H K).
+  destruct H as (A & B & C & D). field. lra.
+Qed.
+
+(* ---------- report: inversion ---------- *)
+Lemma report_inv x e i : report x = Ok (e, i) -> extract x = Ok e /\ interpret (r_conv x) e = Ok i.
+Proof.
+  unfold report. destruct (extract x) as [e'|]; [|discriminate].
+  destruct (interpret _ e') as [i'|] eqn:HI; [|discriminate]. intros [= <- <-]; split; [reflexivity|exact HI].
+Qed.
+
+Definition settings_ok (x : rep_in) : Prop :=
+  positive_settings (r_conv x) /\ r_km x == kcals_monthly (r_conv x).
+
+(* c04_conversion: every reported series is the documented conversion of the allocation *)
+Lemma report_conversion x e i : report x = Ok (e, i) -> settings_ok x ->
+  let c := r_conv x in let need := billion_kcals_needed c in
+  forall m, (m < r_n x)%nat ->
+  (nthq (p_sf i) m == 100 * (1 * var_at (v_sf_h x) m) / need /\
+   nthq (p_cr i) m == 100 * (1 * var_at (v_cr_h x) m) / need /\
+   nthq (p_sw i) m == 100 * (r_sw_kcals x * var_at (v_sw_h x) m) / need /\
+   nthq (p_cs i) m == 100 * (1 * var_at (v_cs_h x) m) / need /\
+   nthq (p_scp i) m == 100 * (1 * var_at (v_scp_h x) m) / need /\
+   nthq (p_meat i) m == 100 * (1 * var_at (v_meat x) m) / need /\
+   nthq (p_gh i) m == 100 * nthq (r_greenhouse x) m / need /\
+   nthq (p_fish i) m == 100 * nthq (r_fish x) m / need /\
+   nthq (p_milk i) m == 100 * nthq (r_milk x) m / need) /\
+  (nthq (k_sf i) m == 1 * var_at (v_sf_h x) m * 1000000000 / (30 * population c) /\
+   nthq (k_sw i) m == r_sw_kcals x * var_at (v_sw_h x) m * 1000000000 / (30 * population c) /\
+   nthq (k_cs i) m == 1 * var_at (v_cs_h x) m * 1000000000 / (30 * population c) /\
+   nthq (k_scp i) m == 1 * var_at (v_scp_h x) m * 1000000000 / (30 * population c) /\
+   nthq (k_meat i) m == 1 * var_at (v_meat x) m * 1000000000 / (30 * population c) /\
+   nthq (k_gh i) m == nthq (r_greenhouse x) m * 1000000000 / (30 * population c) /\
+   nthq (k_fish i) m == nthq (r_fish x) m * 1000000000 / (30 * population c) /\
+   nthq (k_milk i) m == nthq (r_milk x) m * 1000000000 / (30 * population c)).
+Proof.
+  intros R [P K] c need m Hm. destruct (report_inv _ _ _ R) as [HE HI].
+  destruct (extract_inv _ _ HE) as (E1 & E2 & E3 & E4 & E5 & E6 & E7 & E8 & E9 & _).
+  destruct (interpret_inv _ _ _ HI) as
+    (I1 & I2 & I3 & I4 & I5 & I6 & I7 & I8 & I9 & _ & _ & _ & _ & _ & _ & _ & _ & _ & _ &
+     K1 & K2 & K3 & K4 & K5 & K6 & K7 & _ & _ & K10).
+  fold c in HI, I1, I2, I3, I4, I5, I6, I7, I8, I9, K1, K2, K3, K4, K5, K6, K7, K10, P, K.
+  pose proof (bkn_pos c P) as NP. pose proof (km_pos c P) as KP. fold need in NP.
+  assert (KM : ~ r_km x == 0) by (rewrite K; intro HE0; lra).
+  destruct P as (A & B & C & D).
+  assert (P : positive_settings c) by (repeat split; assumption).
+  assert (G : forall l, nthq (lscale (m_bf_pct c) (lscale (m_bk_bf c) l)) m == 100 * nthq l m / need).
+  { intros l. rewrite !nthq_lscale, (bk_bf_formula c P).
+    pose proof (pct_formula c (kcals_monthly c) 1 P (Qeq_refl _)) as F.
+    transitivity (nthq l m * (m_bf_pct c * (1 / kcals_monthly c))); [ring|]. rewrite F. unfold need. field. intro HE0; fold need in HE0; lra. }
+  assert (G' : forall l, nthq (lscale (m_bf_ke c) (lscale (m_bk_bf c) l)) m == nthq l m * 1000000000 / (30 * population c)).
+  { intros l. rewrite !nthq_lscale, (bk_bf_formula c P).
+    pose proof (ke_formula c (kcals_monthly c) 1 P (Qeq_refl _)) as F.
+    transitivity (nthq l m * (m_bf_ke c * (1 / kcals_monthly c))); [ring|]. rewrite F. field. lra. }
+  split.
+  - rewrite I1, I2, I3, I4, I5, I6, I7, I8, I9, E1, E2, E3, E4, E5, E6, E7, E8, E9.
+    unfold extract_generic_kcals, create_food_kcals.
+    repeat split; try (apply pct_of_vars; assumption); try apply G.
+    rewrite nthq_lscale, nthq_map_div by exact KM.
+    pose proof (pct_formula c (r_km x) 1 P K) as F.
+    transitivity (nthq (r_milk x) m * (m_bf_pct c * (1 / r_km x))); [field; exact KM|]. rewrite F.
+    unfold need. field. intro HE0; fold need in HE0; lra.
+  - rewrite K1, K2, K3, K4, K5, K6, K7, K10, E1, E2, E3, E4, E5, E6, E8, E9.
+    unfold extract_generic_kcals, create_food_kcals.
+    repeat split; try (apply ke_of_vars; assumption); try apply G'.
+    rewrite nthq_lscale, nthq_map_div by exact KM.
+    pose proof (ke_formula c (r_km x) 1 P K) as F.
+    transitivity (nthq (r_milk x) m * (m_bf_ke c * (1 / r_km x))); [field; exact KM|]. rewrite F.
+    field. lra.
+Qed.
+
+(* ---------- headline = min over months of the sum of the nine series ---------- *)
+Lemma ladd_nth a b m : List.length b = List.length a -> (m < List.length a)%nat ->
+  nthq (ladd a b) m = nthq a m + nthq b m.
+Proof. intros L H. unfold ladd. apply nthq_zip; lia. Qed.
+Lemma ladd_len a b : List.length b = List.length a -> List.length (ladd a b) = List.length a.
+Proof. intros L. unfold ladd. rewrite length_zip. lia. Qed.
+
+Lemma same_len_eq a b : same_len a b = true -> List.length b = List.length a.
+Proof. unfold same_len. intros H. apply Nat.eqb_eq in H. lia. Qed.
+
+Lemma sum9_len sf cr sw cs scp gh fish meat milk :
+  List.length cr = List.length sf -> List.length sw = List.length sf -> List.length cs = List.length sf ->
+  List.length scp = List.length sf -> List.length gh = List.length sf -> List.length fish = List.length sf ->
+  List.length meat = List.length sf -> List.length milk = List.length sf ->
+  List.length (sum9 sf cr sw cs scp gh fish meat milk) = List.length sf.
+Proof.
+  intros L1 L2 L3 L4 L5 L6 L7 L8. unfold sum9.
+  assert (A1 := ladd_len sf cr L1).
+  assert (A2 := ladd_len (ladd sf cr) sw ltac:(lia)).
+  assert (A3 := ladd_len (ladd (ladd sf cr) sw) cs ltac:(lia)).
+  assert (A4 := ladd_len (ladd (ladd (ladd sf cr) sw) cs) scp ltac:(lia)).
+  assert (A5 := ladd_len (ladd (ladd (ladd (ladd sf cr) sw) cs) scp) gh ltac:(lia)).
+  assert (A6 := ladd_len (ladd (ladd (ladd (ladd (ladd sf cr) sw) cs) scp) gh) fish ltac:(lia)).
+  assert (A7 := ladd_len (ladd (ladd (ladd (ladd (ladd (ladd sf cr) sw) cs) scp) gh) fish) meat ltac:(lia)).
+  assert (A8 := ladd_len (ladd (ladd (ladd (ladd (ladd (ladd (ladd sf cr) sw) cs) scp) gh) fish) meat) milk ltac:(lia)).
+  lia.
+Qed.
+
+Lemma sum9_nth sf cr sw cs scp gh fish meat milk m :
+  List.length cr = List.length sf -> List.length sw = List.length sf -> List.length cs = List.length sf ->
+  List.length scp = List.length sf -> List.length gh = List.length sf -> List.length fish = List.length sf ->
+  List.length meat = List.length sf -> List.length milk = List.length sf -> (m < List.length sf)%nat ->
+  nthq (sum9 sf cr sw cs scp gh fish meat milk) m =
+    nthq sf m + nthq cr m + nthq sw m + nthq cs m + nthq scp m + nthq gh m + nthq fish m + nthq meat m + nthq milk m.
+Proof.
+  intros L1 L2 L3 L4 L5 L6 L7 L8 H. unfold sum9.
+  assert (A1 := ladd_len sf cr L1).
+  assert (A2 := ladd_len (ladd sf cr) sw ltac:(lia)).
+  assert (A3 := ladd_len (ladd (ladd sf cr) sw) cs ltac:(lia)).
+  assert (A4 := ladd_len (ladd (ladd (ladd sf cr) sw) cs) scp ltac:(lia)).
+  assert (A5 := ladd_len (ladd (ladd (ladd (ladd sf cr) sw) cs) scp) gh ltac:(lia)).
+  assert (A6 := ladd_len (ladd (ladd (ladd (ladd (ladd sf cr) sw) cs) scp) gh) fish ltac:(lia)).
+  assert (A7 := ladd_len (ladd (ladd (ladd (ladd (ladd (ladd sf cr) sw) cs) scp) gh) fish) meat ltac:(lia)).
+  rewrite !ladd_nth by lia. reflexivity.
+Qed.
+
+Lemma report_headline x e i : report x = Ok (e, i) ->
+  let s m := nthq (p_sf i) m + nthq (p_cr i) m + nthq (p_sw i) m + nthq (p_cs i) m + nthq (p_scp i) m +
+             nthq (p_gh i) m + nthq (p_fish i) m + nthq (p_meat i) m + nthq (p_milk i) m in
+  (forall m, (m < List.length (p_sf i))%nat -> nthq (p_sum i) m = s m) /\
+  (forall m, (m < List.length (p_sf i))%nat -> headline i <= s m) /\
+  (exists m, (m < List.length (p_sf i))%nat /\ headline i = s m).
+Proof.
+  intros R s. destruct (report_inv _ _ _ R) as [HE HI].
+  destruct (interpret_inv _ _ _ HI) as
+    (_ & _ & _ & _ & _ & _ & _ & _ & _ & _ & _ & S & M & L & _).
+  repeat (apply andb_prop in L; destruct L as [L ?]).
+  repeat match goal with H : same_len _ _ = true |- _ => apply same_len_eq in H end.
+  assert (Ln : List.length (p_sum i) = List.length (p_sf i)) by (rewrite S; apply sum9_len; assumption).
+  assert (N : forall m, (m < List.length (p_sf i))%nat -> nthq (p_sum i) m = s m).
+  { intros m Hm. rewrite S. apply sum9_nth; assumption. }
+  destruct (lmin_nth _ _ M) as [(m0 & Hm0 & E0) Hall].
+  split; [exact N|]. split.
+  - intros m Hm. rewrite <- (N m Hm). apply Hall. lia.
+  - exists m0. split; [lia|]. rewrite <- E0. apply N. lia.
+Qed.
+
+(* ---------- link with the LP rows ---------- *)
+Definition bsel (b : bool) (v : Q) : Q := if b then v else 0.
+
+Lemma varlen_vars_of i a add s : varlen (vars_of i a add s) = NM i.
+Proof. unfold vars_of, months. destruct add; cbn; [now rewrite map_length, seq_length|reflexivity]. Qed.
+
+Lemma var_at_vars_of i a add s m : (m < NM i)%nat -> var_at (vars_of i a add s) m = bsel add (a s m).
+Proof.
+  intros H. unfold vars_of, months. destruct add; cbn; [|reflexivity].
+  unfold nthq. now rewrite (nth_map_seq (a s) 0 (NM i) 0 m H).
+Qed.
+
+Lemma nth_firstn_lt {A} (d : A) n : forall l m, (m < n)%nat -> nth m (firstn n l) d = nth m l d.
+Proof. induction n; intros l m H; [lia|]. destruct l; [now destruct m|]. destruct m; cbn; auto. apply IHn; lia. Qed.
+
+Lemma nth_pad l k m : nth m (l ++ repeat 0 k) 0 = nth m l 0.
+Proof.
+  destruct (Nat.lt_ge_cases m (List.length l)) as [H|H].
+  - now rewrite app_nth1.
+  - rewrite app_nth2 by lia. rewrite nth_repeat0. symmetry. apply nth_overflow; lia.
+Qed.
+
+Lemma nthq_padded l n m : (m < n)%nat -> nthq (firstn n (l ++ repeat 0 n)) m = at_ l m.
+Proof. intros H. unfold nthq, at_. rewrite nth_firstn_lt by exact H. apply nth_pad. Qed.
+
+Lemma eval_human_terms i a k m :
+  eval a (human_terms i k m) ==
+  k * (bsel (add_sf i) (a SF_h m) + bsel (add_cr i) (a CR_h m) + sw_kcals i * bsel (add_sw i) (a SW_h m) +
+       bsel (add_meat i) (a M_eaten m) + bsel (add_cs i) (a CS_h m) + bsel (add_scp i) (a SCP_h m)).
+Proof.
+  unfold human_terms, opt, t, bsel.
+  destruct (add_sf i), (add_cr i), (add_sw i), (add_meat i), (add_cs i), (add_scp i); cbn; ring.
+Qed.
+
+Definition consumed_row (i : lp_in) (m : nat) : row :=
+  mk (t 1 Consumed m :: human_terms i (- (100 / need i)) m) Eq (given_kcals i m / need i * 100).
+
+Lemma consumed_row_in_build i m : (m < NM i)%nat -> In (consumed_row i m) (build i ToHumans).
+Proof.
+  intros H. unfold build. apply in_or_app; right. apply in_or_app; left.
+  apply in_flat_map. exists m. split; [unfold months; apply in_seq; lia|].
+  apply in_or_app; right. apply in_or_app; left. cbn. left. reflexivity.
+Qed.
+
+Lemma feasible_consumed_rows i a : Feasible i ToHumans a -> forall m, (m < NM i)%nat -> sat a (consumed_row i m).
+Proof.
+  intros [_ F] m H. rewrite Forall_forall in F. apply F. apply consumed_row_in_build; exact H.
+Qed.
+
+(* row Kcals_Fed_Month read as a definition of consumed_kcals *)
+Lemma consumed_value i a m : ~ need i == 0 -> sat a (consumed_row i m) ->
+  a Consumed m == 100 / need i *
+    (bsel (add_sf i) (a SF_h m) + bsel (add_cr i) (a CR_h m) + sw_kcals i * bsel (add_sw i) (a SW_h m) +
+     bsel (add_meat i) (a M_eaten m) + bsel (add_cs i) (a CS_h m) + bsel (add_scp i) (a SCP_h m) +
+     at_ (milk i) m + at_ (greenhouse i) m + at_ (fish i) m).
+Proof.
+  intros N S. unfold sat, consumed_row, mk in S. cbn [sns lhs rhs] in S. unfold t at 1 in S. cbn [eval] in S.
+  rewrite eval_human_terms in S. unfold given_kcals in S.
+  set (H := bsel (add_sf i) (a SF_h m) + bsel (add_cr i) (a CR_h m) + sw_kcals i * bsel (add_sw i) (a SW_h m) +
+     bsel (add_meat i) (a M_eaten m) + bsel (add_cs i) (a CS_h m) + bsel (add_scp i) (a SCP_h m)) in *.
+  assert (E : a Consumed m == (at_ (milk i) m + at_ (greenhouse i) m + at_ (fish i) m) / need i * 100 + 100 / need i * H).
+  { rewrite <- S. field. exact N. }
+  rewrite E. field. exact N.
+Qed.
+
+Definition lp_settings_ok (i : lp_in) (c : conv) : Prop :=
+  positive_settings c /\ kcals_monthly_pp i == kcals_monthly c /\ need i == billion_kcals_needed c.
+
+Lemma report_lp_sum i c a e ii : lp_settings_ok i c ->
+  (forall m, (m < NM i)%nat -> sat a (consumed_row i m)) ->
+  report (report_in i c a) = Ok (e, ii) ->
+  List.length (p_sf ii) = NM i /\ forall m, (m < NM i)%nat -> nthq (p_sum ii) m == a Consumed m.
+Proof.
+  intros (P & K & N) S R.
+  assert (SO : settings_ok (report_in i c a)) by (split; assumption).
+  pose proof (report_conversion _ _ _ R SO) as CV. cbn zeta in CV.
+  destruct (report_headline _ _ _ R) as (HS & _ & _).
+  destruct (report_inv _ _ _ R) as [HE HI].
+  destruct (extract_inv _ _ HE) as (E1 & _).
+  destruct (interpret_inv _ _ _ HI) as (I1 & _).
+  assert (Ln : List.length (p_sf ii) = NM i).
+  { rewrite I1, E1. unfold lscale, extract_generic_kcals. rewrite map_length.
+    apply to_monthly_list_len. cbn. apply varlen_vars_of. }
+  split; [exact Ln|]. intros m Hm.
+  rewrite HS by lia.
+  destruct (CV m Hm) as ((C1 & C2 & C3 & C4 & C5 & C6 & C7 & C8 & C9) & _).
+  cbn [report_in r_conv r_sw_kcals v_sf_h v_cr_h v_sw_h v_cs_h v_scp_h v_meat r_greenhouse r_fish r_milk r_n] in *.
+  rewrite C1, C2, C3, C4, C5, C6, C7, C8, C9.
+  rewrite !var_at_vars_of, !nthq_padded by exact Hm.
+  pose proof (bkn_pos c P) as NP.
+  assert (NZ : ~ need i == 0) by (rewrite N; intro HE0; lra).
+  rewrite (consumed_value i a m NZ (S m Hm)). rewrite N. field. intro HE0; lra.
+Qed.
+
+Lemma report_lp_headline i c a e ii : lp_settings_ok i c ->
+  (forall m, (m < NM i)%nat -> sat a (consumed_row i m)) ->
+  report (report_in i c a) = Ok (e, ii) ->
+  (forall m, (m < NM i)%nat -> headline ii <= a Consumed m) /\
+  (exists m, (m < NM i)%nat /\ headline ii == a Consumed m).
+Proof.
+  intros H S R. destruct (report_lp_sum i c a e ii H S R) as [Ln Sm].
+  destruct (report_headline _ _ _ R) as (HS & Hle & (m0 & Hm0 & E0)). rewrite Ln in *.
+  split.
+  - intros m Hm. rewrite <- (Sm m Hm), (HS m Hm). apply Hle; exact Hm.
+  - exists m0. split; [exact Hm0|]. rewrite <- (Sm m0 Hm0), (HS m0 Hm0), E0. reflexivity.
+Qed.
+
+(* ---------- second stage floor ---------- *)
+Lemma floor_rows i v a : Feasible2 i ToHumans v a -> forall m, (m < NM i)%nat -> (99995 # 100000) * v <= a Consumed m.
+Proof.
+  intros [_ F] m H. cbn in F. rewrite Forall_forall in F.
+  specialize (F (mk [t 1 Consumed m] Ge (v * (99995 # 100000)))).
+  assert (I : In (mk [t 1 Consumed m] Ge (v * (99995 # 100000))) (map (fun m => mk [t 1 Consumed m] Ge (v * (99995 # 100000))) (months i))).
+  { apply in_map_iff. exists m. split; [reflexivity|unfold months; apply in_seq; lia]. }
+  specialize (F I). unfold sat in F; cbn in F. lra.
+Qed.
+
+Lemma objective_rows i a : Feasible i ToHumans a -> forall m, (m < NM i)%nat -> a Obj 0%nat <= a Consumed m.
+Proof.
+  intros [_ F] m H. rewrite Forall_forall in F.
+  assert (I : In (mk [t 1 Obj 0; t (-1) Consumed m] Le 0) (build i ToHumans)).
+  { unfold build. apply in_or_app; right. apply in_or_app; right. cbn.
+    apply in_map_iff. exists m. split; [reflexivity|unfold months; apply in_seq; lia]. }
+  specialize (F _ I). unfold sat in F; cbn in F. lra.
+Qed.
+
+(* ---------- crop split ---------- *)
 Lemma split_month_adds_up produced eaten k :
   fst (split_month produced eaten k) + snd (split_month produced eaten k) == eaten * k.
 Proof. unfold split_month. destruct (Qle_bool produced eaten); cbn; ring. Qed.
+
+Lemma split_month_nonneg produced eaten k : 0 <= k -> 0 <= snd (split_month produced eaten k).
+Proof.
+  intros K. unfold split_month. destruct (Qle_bool produced eaten) eqn:E; cbn; [|lra].
+  apply Qle_bool_iff in E. apply Qmult_le_0_compat; lra.
+Qed.
+
+Lemma nth_map_lt {A B} (f : A -> B) d d' l m : (m < List.length l)%nat -> nth m (map f l) d' = f (nth m l d).
+Proof. revert m; induction l; intros [|m] H; cbn in *; try lia; auto. apply IHl; lia. Qed.
+
+Lemma extract_split x e : extract x = Ok e -> 0 < r_km x -> forall m, (m < r_n x)%nat ->
+  nthq (e_imm e) m + nthq (e_ns e) m == nthq (e_cr e) m /\ 0 <= nthq (e_ns e) m.
+Proof.
+  intros HE K m Hm. destruct (extract_inv _ _ HE) as (_ & _ & _ & _ & _ & _ & E7 & _ & _ & S).
+  rewrite E7. unfold create_food_kcals. rewrite to_monthly_list_nth by exact Hm.
+  destruct (is_modelled (v_cr_h x)) eqn:M.
+  - unfold split_series in S. injection S as -> ->. unfold nthq.
+    rewrite !map_map. rewrite !nth_map_seq by exact Hm. cbn beta. cbn [plus]. rewrite ?nth_map_seq by exact Hm. cbn [plus].
+    split; [apply split_month_adds_up|apply split_month_nonneg].
+    apply Qlt_le_weak. apply Qdiv_pos; [reflexivity|exact K].
+  - destruct S as [-> ->]. unfold nthq. rewrite !nth_repeat0.
+    destruct (v_cr_h x); cbn in M |- *; [|discriminate M]. split; [ring|lra].
+Qed.
+
+(* ---------- np.round ---------- *)
+Lemma rhe_bound y : - (1 # 2) <= inject_Z (rhe y) - y <= 1 # 2.
+Proof.
+  unfold rhe. pose proof (Qfloor_le y) as L. pose proof (Qlt_floor y) as U.
+  rewrite inject_Z_plus in U. change (inject_Z 1) with 1 in U.
+  set (f := Qfloor y) in *.
+  destruct (Qcompare (y - inject_Z f) (1 # 2)) eqn:C.
+  - apply Qeq_alt in C.
+    destruct (Z.even f); [|rewrite inject_Z_plus; change (inject_Z 1) with 1]; lra.
+  - apply Qlt_alt in C. lra.
+  - apply Qgt_alt in C. rewrite inject_Z_plus; change (inject_Z 1) with 1. lra.
+Qed.
+
+Lemma pow10_pos d : 0 < pow10 d.
+Proof.
+  unfold pow10. assert (0 < 10 ^ Z.of_nat d)%Z by (apply Z.pow_pos_nonneg; lia).
+  unfold Qlt; cbn. lia.
+Qed.
+
+Lemma round_dec_bound d x : - ((1 # 2) / pow10 d) <= round_dec d x - x <= (1 # 2) / pow10 d.
+Proof.
+  unfold round_dec. pose proof (pow10_pos d) as P. pose proof (rhe_bound (x * pow10 d)) as B.
+  set (r := inject_Z (rhe (x * pow10 d))) in *.
+  assert (E : r / pow10 d - x == (r - x * pow10 d) / pow10 d) by (field; lra).
+  rewrite E. clear E. destruct B as [B1 B2]. split.
+  - apply Qle_shift_div_l; [exact P|]. 
+    assert (E : - ((1 # 2) / pow10 d) * pow10 d == - (1 # 2)) by (field; lra). rewrite E. exact B1.
+  - apply Qle_shift_div_r; [exact P|].
+    assert (E : (1 # 2) / pow10 d * pow10 d == (1 # 2)) by (field; lra). rewrite E. exact B2.
+Qed.
+
+Lemma pow10_3 : pow10 3 == 1000. Proof. reflexivity. Qed.
+Lemma pow10_1 : pow10 1 == 10. Proof. reflexivity. Qed.
+
+Lemma lround_nth d l m : (m < List.length l)%nat -> nthq (lround d l) m = round_dec d (nthq l m).
+Proof. intros H. unfold nthq, lround. apply nth_map_lt; exact H. Qed.
+
+(* the breakdown the interpreter keeps (stored_food and outdoor_crops rounded to 3 decimals) against the headline *)
+Lemma report_rounded x e i : report x = Ok (e, i) ->
+  let s m := nthq (p_sf i) m + nthq (p_cr i) m + nthq (p_sw i) m + nthq (p_cs i) m + nthq (p_scp i) m +
+             nthq (p_gh i) m + nthq (p_fish i) m + nthq (p_meat i) m + nthq (p_milk i) m in
+  let kept m := nthq (q_sf i) m + nthq (q_cr i) m + nthq (p_sw i) m + nthq (p_cs i) m + nthq (p_scp i) m +
+             nthq (p_gh i) m + nthq (p_fish i) m + nthq (p_meat i) m + nthq (p_milk i) m in
+  forall m, (m < List.length (p_sf i))%nat ->
+    - (1 # 1000) <= kept m - s m <= 1 # 1000 /\
+    - (5 # 10000) <= nthq (q_sf i) m - nthq (p_sf i) m <= 5 # 10000 /\
+    - (5 # 10000) <= nthq (q_cr i) m - nthq (p_cr i) m <= 5 # 10000 /\
+    - (5 # 10000) <= nthq (q_sw i) m - nthq (p_sw i) m <= 5 # 10000.
+Proof.
+  intros R s kept m Hm. destruct (report_inv _ _ _ R) as [HE HI].
+  destruct (interpret_inv _ _ _ HI) as
+    (_ & _ & _ & _ & _ & _ & _ & _ & _ & _ & _ & _ & _ & L & Q1 & Q2 & _ & _ & Q5 & _).
+  repeat (apply andb_prop in L; destruct L as [L ?]).
+  repeat match goal with H : same_len _ _ = true |- _ => apply same_len_eq in H end.
+  pose proof (round_dec_bound 3 (nthq (p_sf i) m)) as B1.
+  pose proof (round_dec_bound 3 (nthq (p_cr i) m)) as B2.
+  pose proof (round_dec_bound 3 (nthq (p_sw i) m)) as B3.
+  assert (E : (1 # 2) / pow10 3 == 5 # 10000) by reflexivity.
+  rewrite E in B1, B2, B3.
+  unfold kept, s. rewrite Q1, Q2, Q5. rewrite !lround_nth by lia. lra.
+Qed.
+
+(* ---------- split, in the reporting units ---------- *)
+Lemma report_split x e i : report x = Ok (e, i) -> positive_settings (r_conv x) -> 0 < r_km x ->
+  forall m, (m < r_n x)%nat ->
+  (nthq (e_imm e) m + nthq (e_ns e) m == nthq (e_cr e) m /\ 0 <= nthq (e_ns e) m) /\
+  (nthq (p_imm i) m + nthq (p_ns i) m == nthq (p_cr i) m /\ 0 <= nthq (p_ns i) m) /\
+  (nthq (k_imm i) m + nthq (k_ns i) m == m_bf_ke (r_conv x) * nthq (e_cr e) m /\ 0 <= nthq (k_ns i) m).
+Proof.
+  intros R P K m Hm. destruct (report_inv _ _ _ R) as [HE HI].
+  destruct (extract_split _ _ HE K m Hm) as [A B].
+  destruct (interpret_inv _ _ _ HI) as
+    (_ & I2 & _ & _ & _ & _ & _ & _ & _ & I10 & I11 & _ & _ & _ & _ & _ & _ & _ & _ &
+     _ & _ & _ & _ & _ & _ & _ & K8 & K9 & _).
+  pose proof (m_bf_pct_pos _ P) as PP. pose proof (m_bf_ke_pos _ P) as PK.
+  split; [split; assumption|]. split.
+  - rewrite I2, I10, I11, !nthq_lscale. split; [rewrite <- A; ring|].
+    apply Qmult_le_0_compat; [lra|exact B].
+  - rewrite K8, K9, !nthq_lscale. split; [rewrite <- A; ring|].
+    apply Qmult_le_0_compat; [lra|exact B].
+Qed.
+
+(* ---------- floor carried by the tie-breaking solves ---------- *)
+Lemma report_floor i c a v e ii : lp_settings_ok i c -> Feasible2 i ToHumans v a ->
+  report (report_in i c a) = Ok (e, ii) ->
+  (99995 # 100000) * v <= headline ii /\ a Obj 0%nat <= headline ii.
+Proof.
+  intros H F R. destruct F as [F1 F2].
+  destruct (report_lp_headline i c a e ii H (feasible_consumed_rows i a F1) R) as [_ (m & Hm & E)].
+  rewrite E. split; [apply (floor_rows i v a (conj F1 F2) m Hm)|apply (objective_rows i a F1 m Hm)].
+Qed.
+
+Lemma within_tolerance v h : (99995 # 100000) * v <= h -> h <= v ->
+  0 <= v - h /\ v - h <= (5 # 100000) * v /\ (0 < v -> (v - h) / v < 1 # 10000).
+Proof.
+  intros A B. repeat split; try lra. intros V.
+  apply Qlt_shift_div_r; [exact V|]. lra.
+Qed.
